@@ -217,11 +217,38 @@ def check_dual_update(ctx: Ctx):
     signs = sorted(ast.unparse(u) for u in upd)
     ctx.ob("C10-O4", "R16 PAIRED-EFFECTS", f, "used columns: row potential += delta, column potential -= delta; unused columns: slack -= delta", signs == ["col_potential[j] -= delta", "min_slack[j] -= delta", "row_potential[col_match[j]] += delta"], f"{signs}", node=upd[0] if upd else f.node)
 
+    # every row of the square work matrix gets its augmenting search: the row loop is `for i in range(1, n + 1)` and
+    # nothing leaves it early (with more rows than columns the rows still to come are real ones)
+    seed = [n for n in own_nodes(f.node) if isinstance(n, ast.Assign) and ast.unparse(n.targets[0]) == "col_match[0]"]
+    ctx.require(len(seed) == 1, "row seeding `col_match[0] = i` not found")
+    parents = {ch: par for par in ast.walk(f.node) for ch in ast.iter_child_nodes(par)}
+    rl = seed[0]
+    while rl in parents and not isinstance(rl, ast.For):
+        rl = parents[rl]
+    ok_rng = isinstance(rl, ast.For) and ast.unparse(rl.iter).replace(" ", "") in ("range(1,n+1)", "range(1,1+n)") and ast.unparse(seed[0].value) == ast.unparse(rl.target)
+
+    def _leaves(node, depth=0):
+        for ch in ast.iter_child_nodes(node):
+            if isinstance(ch, (ast.FunctionDef, ast.Lambda)):
+                continue
+            if isinstance(ch, (ast.Return, ast.Raise)) or (isinstance(ch, (ast.Break, ast.Continue)) and depth == 0):
+                yield ch
+            yield from _leaves(ch, depth + (1 if isinstance(ch, (ast.For, ast.While)) else 0))
+
+    outs = list(_leaves(rl)) if isinstance(rl, ast.For) else []
+    ctx.ob("C10-O4", "R12 NO-CARDINALITY-CUTOFF", f, "every row 1..n of the square work matrix gets its augmenting search (no way out of the row loop)", ok_rng and not outs, (f"`{ast.unparse(outs[0])}` at line {outs[0].lineno} leaves the row loop" if outs else f"`for {ast.unparse(rl.target)} in {ast.unparse(rl.iter)}`" if isinstance(rl, ast.For) else "no row loop") + ": with more rows than columns the rows not yet searched are real rows; they stay unassigned (or take what the earlier ones left), and the sum is not the minimum", node=outs[0] if outs else rl)
+
 
 # ---------------------------------------------------------------------------------------------
 from sa import mutate as M  # noqa: E402
 
 HU = "solvor/hungarian.py"
+
+
+def _v_row_loop_stops_early(tree):
+    g = M.find_func(tree, "solve_hungarian")
+    M.insert(g, "iterations = 0", "done = 0", after=True)
+    M.replace_stmt(g, lambda s: isinstance(s, ast.While) and M.src_is(s.test, "current_col != 0"), lambda s: M.stmts("if current_col <= n_cols:\n    done += 1") + [s] + M.stmts("if done == min(n_rows, n_cols):\n    break"))
 
 
 def _v_objective_from_working(tree):
@@ -330,6 +357,7 @@ def _v_single_line_fast_path(tree):
 
 
 VARIANTS = [
+    M.Variant("row loop stops once min(rows, cols) real pairs are made: with more rows than columns later real rows are never searched (seed C10-X)", HU, _v_row_loop_stops_early, "C10-O4"),
     M.Variant("a one-column matrix is answered by picking the smallest entry, whatever `minimize` says (seed C10-T)", HU, _v_single_line_fast_path, "C10-O1"),
     M.Variant("row reduction presolve over the real cells only (seed C10-Q)", HU, _v_row_column_reduction_presolve, "C10-O3"),
 
